@@ -420,7 +420,8 @@ def mn_world():
     return _W['mn']
 
 
-def mn_make(name):
+def mn_make(name, invalid=None):
+    """invalid: name of the C01 candidate block to deliver in an 'invalid' plan (default: signed by a foreign key)"""
     from .props import c09
     from . import cands
     from skepticoin import consensus, mining
@@ -482,9 +483,10 @@ def mn_make(name):
         data = w.D.frame(DataMessage(DATA_BLOCK, world.from_wire(B)))
     elif kind == 'invalid':
         if 'invalid' not in W:
-            # passes the stand-alone checks and can be applied, fails full validation (signature by a foreign key)
-            W['invalid'] = [c for c in cands.c01_candidates(H, uni) if c.name == 'signed-by-foreign-key'][0].block
-        B, Bvalid = W['invalid'], False
+            # the C01 alphabet of rule-breaking blocks on the head; default: passes the stand-alone checks and can be
+            # applied, fails full validation (signature by a foreign key)
+            W['invalid'] = {c.name: c.block for c in cands.c01_candidates(H, uni) if not c.control}
+        B, Bvalid = W['invalid'][invalid or 'signed-by-foreign-key'], False
         data = w.D.frame(DataMessage(DATA_BLOCK, world.from_wire(B)))
     else:
         T = ledger.tx_payload(H, 'c')[0][0]
@@ -605,6 +607,118 @@ def mn_check(x, cx, bad):
     return (snap['head'], snap['state_ids'], snap['rows'], snap['pool'], tuple(sorted(relays.items())), tuple(sorted(txs_got.items())))
 
 
+# =====================================================================================  C17: commitments under threads
+
+C17_PLANS = {
+    # per thread: (operation, number of entries); the two threads work on different lists
+    'root-2-vs-root-2': [('root', 2), ('root', 2)],
+    'root-5-vs-root-4': [('root', 5), ('root', 4)],
+    'root-3-vs-tree-and-proofs-4': [('root', 3), ('proofs', 4)],
+    'tree-and-proofs-3-vs-tree-and-proofs-5': [('proofs', 3), ('proofs', 5)],
+}
+
+
+def c17_world():
+    if 'c17' in _W:
+        return _W['c17']
+    from skepticoin import merkletree
+    _W['c17'] = dict(trace=threads.files(merkletree))
+    return _W['c17']
+
+
+def c17_make(name):
+    import hashlib
+    from skepticoin import merkletree as MT
+    plan = C17_PLANS[name]
+    res = {}
+    lists = []
+    for i, (op, n) in enumerate(plan):
+        lists.append([hashlib.sha256(b'vf-thr-%d-%d' % (i, j)).digest() for j in range(n)])
+
+    def mk(i, op, lst):
+        def leaves(node, out):
+            if not node.children:
+                out.append((node.index, node.value))
+            for c in node.children or []:
+                leaves(c, out)
+
+        def run():
+            if op == 'root':
+                res[i] = ('root', MT.get_merkle_root(list(lst)))
+            else:
+                t = MT.get_merkle_tree(list(lst))
+                proofs = []
+                for pos in range(len(lst)):
+                    p = MT.get_proof(t, pos)
+                    lv = []
+                    leaves(p, lv)
+                    proofs.append((p.hash(), (pos, lst[pos]) in lv))
+                res[i] = ('proofs', t.hash(), proofs)
+        return run
+    return [mk(i, op, lists[i]) for i, (op, n) in enumerate(plan)], dict(res=res, lists=lists, plan=plan)
+
+
+def c17_check(x, cx, bad):
+    for i, o in enumerate(x.outcome):
+        if o is not None and o[0] == 'exc':
+            bad.append(('thread-raises', "thread %d raises %r" % (i, o[1])))
+    if bad:
+        return None
+    for i, (op, n) in enumerate(cx['plan']):
+        want = enc.merkle_root(cx['lists'][i])
+        got = cx['res'].get(i)
+        if got is None:
+            continue
+        if got[1] != want:
+            bad.append(('commitment-differs-under-threads', "thread %d: the commitment computed for its %d-entry list is not the "
+                        "commitment of that list (another thread was computing one at the same time)" % (i, n)))
+        elif op == 'proofs' and any(h != want or not ok for h, ok in got[2]):
+            bad.append(('proof-wrong-under-threads', "thread %d: a proof from its tree does not reproduce the commitment / "
+                        "contain the entry" % i))
+    return tuple(sorted((i, v[1]) for i, v in cx['res'].items()))
+
+
+def node_level_rejections(names):
+    """(sequential, no schedule exploration) every rule-breaking candidate block of the C01 alphabet is delivered by a
+    peer to a real node whose chain state came from start-up alone / from start-up plus a block its own miner found:
+    the rejected delivery must leave the node's chain state (deep fingerprint), pool and store rows exactly as they were.
+    Returns (number of deliveries, violations [(key, what, candidate name, pre-state)])"""
+    mn_world()
+    bad = []
+    n = 0
+    for nm in names:
+        for pre in ('start-up', 'own-block-mined'):
+            bodies, cx = mn_make('found-vs-invalid-delivery', invalid=nm)
+            w = cx['w']
+            try:
+                if pre == 'own-block-mined':
+                    bodies[0]()
+                    if enc.blockid(cx['M']) not in w.node.cm.coinstate.block_by_hash:
+                        continue       # (C12's subject)
+                before = (ledger.fingerprint(w.node.cm.coinstate), w.snapshot())
+                bodies[1]()
+                after = (ledger.fingerprint(w.node.cm.coinstate), w.snapshot())
+                n += 1
+                if enc.blockid(cx['B']) in after[1]['state_ids']:
+                    continue           # accepted: CoinState-level acceptance is what the main search of C01 judges
+                diff = [k for k in ('state_ids', 'head', 'pool', 'rows') if before[1][k] != after[1][k]]
+                if before[0] != after[0] and not diff:
+                    diff = ['ledger content']
+                if diff:
+                    bad.append(('rejected-block-changes-node-state', "a peer delivers the rule-breaking block %r to a node in state "
+                                "'%s': it is rejected, but the node's %s changed (chain state had %d blocks, has %d)" % (
+                                    nm, pre, ', '.join(diff), len(before[1]['state_ids']), len(after[1]['state_ids'])), nm, pre))
+            finally:
+                w.close()
+    return n, bad
+
+
+def node_level_names():
+    W = mn_world()
+    mn_make('found-vs-invalid-delivery')[1]['w'].close()
+    return sorted(W['invalid'])
+
+
 # =====================================================================================  driver
 
 THREE_THREADS = {'writer-writer-flusher', 'admit-vs-spending-head-observed', 'conflicting-admissions-observed'}
@@ -614,6 +728,7 @@ FAMILIES = {
     'C13': (C13_PLANS, c13_world, c13_make, c13_check),
     'C07': (C07_PLANS, c07_world, c07_make, c07_check),
     'MN': (MN_PLANS, mn_world, mn_make, mn_check),
+    'C17': (C17_PLANS, c17_world, c17_make, c17_check),
 }
 
 
